@@ -417,6 +417,13 @@ def prove(ob, timeout_ms=20000, global_axioms=(), want_model=False, keep_query=F
     t0 = time.time()
     from .sym import Stale
     if isinstance(ob.goal, Stale):
+        # nothing to decide on a path that cannot be taken; otherwise the clause is undecidable with this contract
+        import copy
+        probe = copy.copy(ob)
+        probe.goal = False
+        r0 = prove(probe, timeout_ms=min(timeout_ms, 8000), global_axioms=global_axioms)
+        if r0.status == 'proved':
+            return Result(ob.name, 'proved', time.time() - t0, kind=ob.kind, detail='infeasible path')
         raise Unsupported('contract set-up out of date: ' + ob.goal.reason)
     subgoals = skolemize(ob.goal)
     if not subgoals:
@@ -605,6 +612,10 @@ def math_instances(formulas, limit=12):
             out.append(z3.Implies(y < x, b < a))
             out.append(z3.Implies(x == y, a == b))
     ls = list(logs.values())[:limit]
+    for p in ps:
+        for l in ls:
+            # u = log10(t), t > 0  ==>  10**u = t   (the exponent need not be the log10 term syntactically)
+            out.append(z3.Implies(z3.And(l.arg(0) > 0, p.arg(0) == l), p == l.arg(0)))
     for i, a in enumerate(ls):
         for b in ls[i + 1:]:
             x, y = a.arg(0), b.arg(0)
